@@ -91,10 +91,16 @@ fn vertex_type_iter(
 
         Box::new(neighbors)
     } else if let Some(CandidateValue::Multiple(possibilities)) = vertex_type_name {
+        // A name listed more than once among the candidates still selects its vertex type once.
+        let mut seen_names = std::collections::HashSet::new();
         let neighbors = possibilities.into_iter().filter_map(move |name| {
+            let name = name.as_arc_str().expect("vertex type name was not a string");
+            if !seen_names.insert(Arc::clone(name)) {
+                return None;
+            }
             schema
                 .vertex_types
-                .get(name.as_arc_str().expect("vertex type name was not a string"))
+                .get(name)
                 .and_then(move |defn| {
                     (defn.name.node != root_query_type)
                         .then(|| SchemaVertex::VertexType(VertexType::new(defn)))
